@@ -14,7 +14,7 @@ Hist == Mode \in {"history", "historyd"}
 \* template is rendered with a receiver of another type than before (string, array, integer)
 OpsD == {Op("String", "ok"), Op("String", "bad"), Op("String", "row1"), Op("String", "row2"), Op("EvalString", "row1"), Op("EvalString", "row2"),
          Op("String", "polyS"), Op("String", "polyA"), Op("String", "polyI"), Op("Response", "polyA"), Op("Response", "polyS"),
-         Op("String", "ok2"), Op("String", "bare"), Op("String", "static"), Op("String", "nested-use")}      \* pages of one layout: with inserts, with other inserts, without any
+         Op("String", "ok2"), Op("String", "bare"), Op("String", "static"), Op("String", "nested-use"), Op("String", "dotS"), Op("String", "dotM")}      \* pages of one layout: with inserts, with other inserts, without any
 Ops15 == IF Mode = "historyd" THEN OpsD ELSE
          {Op("String", "ok"), Op("String", "bad"), Op("String", "missing"), Op("Response", "ok"), Op("Response", "bad"),
           Op("Response", "missing"), Op("EvalString", "ok"), Op("EvalString", "bad"), Op("EvalFile", "ok")}
@@ -25,8 +25,16 @@ Ops15 == IF Mode = "historyd" THEN OpsD ELSE
 Cfgs == IF Mode = "historyd" THEN {[dir |-> "t", ext |-> ".tw", errorPage |-> "", debug |-> FALSE]}
         ELSE {[dir |-> "t", ext |-> ".tw", errorPage |-> e, debug |-> d] : e \in {"", "err"}, d \in BOOLEAN}
 
-Init == /\ \E c \in Cfgs : ApiInit(c)
-        /\ hist = <<>>
+\* response mode: the application may change the debug mode with Configure AFTER the templates were loaded; what Response
+\* writes follows the mode at the time of the call (the pseudo-operation at the head of the history carries the load-time
+\* configuration, cfg is the current one)
+Reconf(c, r) == IF r = "none" THEN c ELSE [c EXCEPT !.debug = (r = "on")]
+Init == IF Mode = "response"
+        THEN \E c \in Cfgs, r \in {"none", "on", "off"} :
+               /\ ApiInit(Reconf(c, r))
+               /\ hist = IF r = "none" THEN <<>> ELSE <<[g |-> 0, op |-> Op("Configure", r), load |-> c]>>
+        ELSE /\ \E c \in Cfgs : ApiInit(c)
+             /\ hist = <<>>
 AllDone == \A g \in G : pc[g] = "done"
 Started(g) == pc[g] # "idle" \/ Len(SelectSeq(hist, LAMBDA h : h.g = g)) > 0
 Next == \/ \E g \in G : \E o \in Ops15 :
@@ -40,9 +48,9 @@ Next == \/ \E g \in G : \E o \in Ops15 :
 Spec == Init /\ [][Next]_vars
 
 \* the results of all operations completed so far are kept in the record through hist/res at print time
-Record == [cfg |-> cfg, errpage |-> ErrPageExists, mode |-> IF Hist THEN "history" ELSE Mode,
+Record == [cfg |-> IF hist # <<>> /\ hist[1].g = 0 THEN hist[1].load ELSE cfg, errpage |-> ErrPageExists, mode |-> IF Hist THEN "history" ELSE Mode,
            ops |-> hist,
-           expok |-> [k \in 1..Len(hist) |-> Solo(hist[k].op, cfg, ErrPageExists).ok],
+           expok |-> [k \in 1..Len(hist) |-> IF hist[k].op.k = "Configure" THEN TRUE ELSE Solo(hist[k].op, cfg, ErrPageExists).ok],
            sched |-> sched,
            expect |-> [g \in G |-> IF op[g].k = "Response" THEN Solo(op[g], cfg, ErrPageExists).body ELSE [page |-> "n/a", shows |-> {}]]]
 Terminal == IF Hist THEN AllDone /\ Len(hist) >= 1 ELSE AllDone /\ \A g \in G : Started(g)
